@@ -51,3 +51,14 @@ pub fn cpu_ns_of_tid(tid: u64) -> Option<u64> {
     let hz = (unsafe { sysconf(2) }).max(1) as u64; // _SC_CLK_TCK
     Some((utime + stime) * 1_000_000_000 / hz)
 }
+
+/// (scheduler state letter, CPU time) of the thread `tid` of this process; `None` when the thread is gone
+pub fn state_of_tid(tid: u64) -> Option<(char, u64)> {
+    let text = std::fs::read_to_string(format!("/proc/self/task/{}/stat", tid)).ok()?;
+    let rest = &text[text.rfind(')')? + 1..];
+    let f: Vec<&str> = rest.split_whitespace().collect();
+    let st = f.first()?.chars().next()?;
+    let utime: u64 = f.get(11)?.parse().ok()?;
+    let stime: u64 = f.get(12)?.parse().ok()?;
+    Some((st, utime + stime))
+}
